@@ -132,7 +132,10 @@ def check_triple(ctx, e, result, abserr, L=None, tag='direct', nontrivial_key=No
 
 def call_scalar(ctx, e, **kw):
     dea3, _ = _lib()
-    a0, a1, a2 = (np.float64(v) for v in e)
+    # the three terms as numpy scalars, as builtin floats or as 0-d arrays: the same numbers
+    form = int(sum(float(v).hex().count('1') for v in e)) % 3
+    a0, a1, a2 = ((np.float64(v) for v in e) if form == 0 else (float(v) for v in e) if form == 1 else (np.array(float(v)) for v in e))
+    ctx.count('scalar_terms_given_as:' + ['np.float64', 'float', '0-d array'][form])
     try:
         res, err = dea3(a0, a1, a2, **kw)
     except Exception as exc:
